@@ -182,6 +182,10 @@ def run_c17(ctx):
             elif ci < 6: desc = nsgen.add_enums(g, rng, n_types=2, flavours=["values", "strings"], n_vars=3, kinds=["in", "in", "out" if ci == 5 else "in"])
             elif ci == 6: desc = nsgen.add_enums(g, rng, n_types=1, flavours=["values"], n_vars=4, kinds=["in", "in", "in", "in"], value_names=["\u00b0C", "m\u00b2 & <x>", "\u00b5", "plain"])   # texts an XML writer escapes
             elif ci == 7: desc = nsgen.add_enums(g, rng, n_types=1, flavours=["none"], n_vars=3, kinds=["empty", "in", "empty"])     # an empty Int32 element in a variable of a type without definition
+            elif ci in (8, 9):
+                # the Enumeration data type is the very first node of the first file (a nodeset that lists its data types first): internal id 0
+                desc = nsgen.add_enums(g, rng, n_types=2, flavours=["strings", "values"], n_vars=3, kinds=["in", "in", "in"])
+                er_ = (nsgen.UA, "i", "29"); g.order.remove(er_); g.order.insert(0, er_)
             else: desc = nsgen.add_enums(g, rng)
             ds = nsgen.serialise(g, rng, value_xml=parseprops.value_xml, aliases=rng.random() < 0.5)
             files = [(n, docs.render(d, rng)) for n, d, _ in ds]
@@ -337,6 +341,7 @@ def c16_oracle(G, uri, work):
         if name == "XMLElement": name = "XmlElement"
         dt = r["DataType"] if has_col else pd.NA
         if parsecmp.isna(dt): offenders.append(r["DisplayName"]); continue
+        if not (G.nodes["id"] == dt).any(): continue          # the declared type is a node that is not loaded: not a built-in type, never rejected
         dtrow = G.nodes[G.nodes["id"] == dt].iloc[0]
         dt_builtin = (dtrow["NodeId"].namespace == 0 and dtrow["BrowseName"] in simple and dtrow["NodeClass"] == "UADataType")
         if dtrow["DisplayName"] in simple and not dt_builtin: causes.add("displayname-collision")
@@ -444,6 +449,10 @@ def run_c16(ctx):
                     for vk_, dv_ in vars_.items():
                         g.nodes[vk_]["attrs"]["ValueRank"] = "1" if isinstance(dv_["value"], T.UAListOf) else ["-2", "-3", "-1"][ci % 3]
             else: vars_ = nsgen.add_typed_variables(g, rng, make_value=c16_value)
+            if ci % 5 == 2:
+                # a valued variable whose DataType is a node of a companion specification that is not loaded
+                vk_ = (g.uris[0], "i", "4190"); g.nodes[vk_] = dict(cls="UAVariable", bname=(g.uris[0], "VarUnloadedType"), display="VarUnloadedType", desc=None, attrs={"DataType": (g.uris[0], "i", "9990")}, value=T.UAInt32(5)); g.order.append(vk_)
+                vars_[vk_] = dict(value=T.UAInt32(5), datatype=(g.uris[0], "i", "9990"), display="VarUnloadedType", cls="UAVariable")
             # every third graph also holds a namespace the written one does not use, in a file that is parsed BEFORE the base nodeset
             fnames = None
             if ci % 3 == 1:
